@@ -243,7 +243,7 @@ PostN(f, i, o) ==
         \* ---- C18: formatted output / input (see PrintfLayout.tla)
      [] f = "gmp_printf_z" ->       \* "%<flags><width>.<prec>Z<conv>" ; o.g = gmp_snprintf text, o.c = C library text for the equal long ("" if not comparable)
            LET fl == [k \in 1..Len(i.fl) |-> SubSeq(i.fl, k, k)]
-               want == GmpLayout(fl, i.w, i.p, i.conv, i.v)
+               want == GmpLayoutX(fl, i.w, i.p, i.conv, i.v)      \* (codes for * arguments and the bare . : PrintfLayout.tla)
                fr == FlagRec(fl)
                \* combinations to which C gives a meaning: d/i any value; o/x/X non-negative and without the sign flags (MPIR's o/x/X are
                \* signed, so '+' and ' ' apply there: documented extension); '#' only with o/x/X
@@ -252,8 +252,8 @@ PostN(f, i, o) ==
            IN  /\ o.g = want /\ o.ret = Len(want)
                \* every other member of the family (sprintf, asprintf, fprintf, printf, obstack_printf and the va_list twins) produces the same text and count
                /\ \A k \in DOMAIN o.alt : o.alt[k].t = want /\ o.alt[k].r = Len(want)
-               /\ (cmeaning /\ i.havec = 1) => /\ o.c = CPrintf(FlagRec(fl), i.w, i.p, i.conv, i.v)        \* the specification agrees with the platform's C library
-                                                 /\ (~DocumentedDeviation(fl, i.p, i.v) => o.g = o.c)        \* and MPIR is byte-identical to it
+               /\ (cmeaning /\ i.havec = 1) => /\ o.c = CPrintfX(FlagRec(fl), i.w, i.p, i.conv, i.v)        \* the specification agrees with the platform's C library
+                                                 /\ o.g = o.c                                               \* and MPIR is byte-identical to it
      [] f = "gmp_snprintf" ->       \* never more than size bytes, returns the full length
            /\ o.ret = Len(i.expect) /\ o.guard = 1
            /\ (i.size > 0 => o.buf = SubSeq(i.expect, 1, IF i.size - 1 < Len(i.expect) THEN i.size - 1 ELSE Len(i.expect)))
